@@ -705,10 +705,12 @@ mod sync {
         impl Future for WaitGroup {
             type Output = ();
             fn poll(self: Pin<&mut Self>, cx: &mut Context<'_>) -> Poll<Self::Output> {
+                #[cfg(ohkami_verif)] crate::__verif__::sched("wg.poll-");
                 if unsafe {self.0.as_ref()}.load(Ordering::Acquire) == 0 {
                     crate::DEBUG!("[WaitGroup::poll] Ready");
                     Poll::Ready(())
                 } else {
+                    #[cfg(ohkami_verif)] crate::__verif__::sched("wg.pending-");
                     cx.waker().wake_by_ref();
                     Poll::Pending
                 }
